@@ -41,8 +41,14 @@ def gen_cases(rng, tier):
         meta.append(m)
     for r in UIDS:
         e1 = other_euid(rng, r)
-        add("uidf\troot\t%d\t%d\t-" % (r, e1), kind="root", uid=r)
         add("uidf\troot\t%d\t%d\t%s" % (r, r, hexs(b"ignored")), kind="root", uid=r)
+        # every effective uid in turn: only_root, and the list that names exactly the EFFECTIVE uid
+        for e in EUIDS:
+            add("uidf\troot\t%d\t%d\t-" % (r, e), kind="root", uid=r)
+            if e != r:
+                for w in ("only", "exclude"):
+                    add("uidf\t%s\t%d\t%d\t%s" % (w, r, e, hexs(b"%d" % e)), kind="wf", uid=r, n=1, include=False)
+                    add("uidf\t%s\t%d\t%d\t%s" % (w, r, e, hexs(b"%d,%d" % (e, r))), kind="wf", uid=r, n=2, include=True)
         add("full\t%d\t%d\t0\t%s" % (r, e1, hexs(b"only_root")), kind="chain", uid=r)
         # single numerals, near misses one by one (prefixes / suffixes / +-1 / 2^31 apart)
         for v in [r] + near_misses(r):
